@@ -116,6 +116,29 @@ pub fn run(opts: &Opts) -> Report {
     ];
     let shape_cases: Vec<_> = shapes.iter().map(|s| crate::facets::vmrun::Case { src: s.to_string(), binds_variant: 0 }).collect();
     run_cases(&mut rep, &mut pending, &shape_cases, true, 1);
+    // stack neutrality on the real VM (model-free): whatever an expression does, it leaves exactly one value, so a
+    // sentinel pushed before it is still in place afterwards — also when the expression fails (a list may hold a failed
+    // element) — and a sentinel pushed after it sits directly on top of it
+    {
+        let users = vec![("tick".to_string(), crate::api::UserFn::Arg0)];
+        for c in cases.iter().chain(shape_cases.iter()) {
+            if crate::api::compile(&c.src).is_err() {
+                continue;
+            }
+            let binds = crate::gen::std_bindings(c.binds_variant);
+            for (wrapped, what) in [(format!("[424242, ({})][0]", c.src), "below"), (format!("[({}), 424242][1]", c.src), "above")] {
+                let out = match crate::api::compile(&wrapped) {
+                    Ok(p) => crate::api::exec_full(&[("main".to_string(), p)], "main", &binds, &users).obs,
+                    Err(e) => format!("compile:{}", e),
+                };
+                rep.count(None);
+                rep.bump("stack-neutrality");
+                if out != "i:424242" {
+                    rep.oracle_fail(&format!("{} [bindings variant {}]", wrapped, c.binds_variant), &out, "i:424242", &format!("the sentinel {} the expression was disturbed: the expression did not leave exactly one value on the stack", what));
+                }
+            }
+        }
+    }
     // VM bounds: arbitrary bytecode through serde
     let mut rng = Rng::new(opts.seed ^ 0xC10);
     let m = if opts.thorough { 100_000 } else { 8_000 };
